@@ -55,7 +55,8 @@ class IGen:
 
     def valid_field(self, t):
         if t == '$':
-            return self.pick(['abc', 'x y', 'Hello', '12', 'q'])
+            return self.pick(['abc', 'x y', 'Hello', '12', 'q', 'Daddy did',
+                              'd', '1D2', 'e5', '&HFF'])
         if t == '%':
             return str(self.pick([0, 7, -7, 32767, -32768, 123]))
         if t == '&':
